@@ -437,6 +437,100 @@ pub open spec fn vx_tables_ok<R: Registry>(m: IMap<archetype::IdentifierRef<R>, 
     forall|k: archetype::IdentifierRef<R>| m.dom().contains(k) ==>
         (#[trigger] m[k]).wf() && m[k].key() == k && m[k].agrees(a)
 }
+
+/// `ks` lists every stored table key exactly once
+pub open spec fn vx_enum<R: Registry>(m: IMap<archetype::IdentifierRef<R>, archetype::Archetype<R>>, ks: Seq<archetype::IdentifierRef<R>>) -> bool {
+    &&& forall|i: int, j: int| 0 <= i < j < ks.len() ==> ks[i] != ks[j]
+    &&& forall|k: archetype::IdentifierRef<R>| m.dom().contains(k) == ks.contains(k)
+}
+/// sum of the lengths of the tables under `ks`
+pub open spec fn vx_sum_keys<R: Registry>(m: IMap<archetype::IdentifierRef<R>, archetype::Archetype<R>>, ks: Seq<archetype::IdentifierRef<R>>) -> nat
+    decreases ks.len()
+{
+    if ks.len() == 0 { 0 } else { vx_sum_keys(m, ks.drop_last()) + m[ks.last()].length as nat }
+}
+/// C13: the number of stored entities (rows of all tables; independent of the enumeration, see
+/// lemma_total_rows)
+pub open spec fn vx_total_rows<R: Registry>(m: IMap<archetype::IdentifierRef<R>, archetype::Archetype<R>>) -> nat {
+    vx_sum_keys(m, choose|ks: Seq<archetype::IdentifierRef<R>>| vx_enum(m, ks))
+}
+pub proof fn lemma_sum_remove<R: Registry>(m: IMap<archetype::IdentifierRef<R>, archetype::Archetype<R>>, b: Seq<archetype::IdentifierRef<R>>, j: int)
+    requires 0 <= j < b.len(),
+    ensures vx_sum_keys(m, b) == vx_sum_keys(m, b.remove(j)) + m[b[j]].length as nat
+    decreases b.len()
+{
+    if j == b.len() - 1 {
+        assert(b.remove(j) =~= b.drop_last());
+    } else {
+        assert(b.remove(j).drop_last() =~= b.drop_last().remove(j));
+        assert(b.remove(j).last() == b.last());
+        lemma_sum_remove(m, b.drop_last(), j);
+    }
+}
+pub open spec fn vx_nodup<K>(a: Seq<K>) -> bool { forall|i: int, j: int| 0 <= i < j < a.len() ==> a[i] != a[j] }
+/// two duplicate-free listings of the same key set have the same sum
+pub proof fn lemma_sum_perm<R: Registry>(m: IMap<archetype::IdentifierRef<R>, archetype::Archetype<R>>, a: Seq<archetype::IdentifierRef<R>>, b: Seq<archetype::IdentifierRef<R>>)
+    requires vx_nodup(a), vx_nodup(b), forall|k: archetype::IdentifierRef<R>| a.contains(k) == b.contains(k),
+    ensures vx_sum_keys(m, a) == vx_sum_keys(m, b)
+    decreases a.len()
+{
+    if a.len() == 0 {
+        if b.len() > 0 { assert(b.contains(b[0])); assert(a.contains(b[0])); }
+    } else {
+        let x = a.last();
+        assert(a.contains(x));
+        assert(b.contains(x));
+        let j = choose|j: int| 0 <= j < b.len() && b[j] == x;
+        let a1 = a.drop_last();
+        let b1 = b.remove(j);
+        assert(vx_nodup(a1));
+        assert(vx_nodup(b1)) by {
+            assert forall|p: int, q: int| 0 <= p < q < b1.len() implies b1[p] != b1[q] by {
+                let pp = if p < j { p } else { p + 1 };
+                let qq = if q < j { q } else { q + 1 };
+                assert(b1[p] == b[pp] && b1[q] == b[qq]);
+            }
+        }
+        assert forall|k: archetype::IdentifierRef<R>| a1.contains(k) == b1.contains(k) by {
+            if a1.contains(k) {
+                let p = choose|p: int| 0 <= p < a1.len() && a1[p] == k;
+                assert(a[p] == k); assert(k != x);
+                assert(a.contains(k)); assert(b.contains(k));
+                let q = choose|q: int| 0 <= q < b.len() && b[q] == k;
+                assert(q != j);
+                let qq = if q < j { q } else { q - 1 };
+                assert(b1[qq] == k);
+            }
+            if b1.contains(k) {
+                let q = choose|q: int| 0 <= q < b1.len() && b1[q] == k;
+                let qq = if q < j { q } else { q + 1 };
+                assert(b[qq] == k); assert(qq != j); assert(k != x);
+                assert(b.contains(k)); assert(a.contains(k));
+                let p = choose|p: int| 0 <= p < a.len() && a[p] == k;
+                assert(p != a.len() - 1);
+                assert(a1[p] == k);
+            }
+        }
+        lemma_sum_perm(m, a1, b1);
+        lemma_sum_remove(m, b, j);
+    }
+}
+pub proof fn lemma_total_rows<R: Registry>(m: IMap<archetype::IdentifierRef<R>, archetype::Archetype<R>>, ks: Seq<archetype::IdentifierRef<R>>)
+    requires vx_enum(m, ks),
+    ensures vx_total_rows(m) == vx_sum_keys(m, ks)
+{
+    let c = choose|c: Seq<archetype::IdentifierRef<R>>| vx_enum(m, c);
+    assert(vx_enum(m, c));
+    assert forall|k: archetype::IdentifierRef<R>| c.contains(k) == ks.contains(k) by { assert(m.dom().contains(k) == c.contains(k)); }
+    lemma_sum_perm(m, c, ks);
+}
+pub proof fn lemma_sum_take_step<R: Registry>(m: IMap<archetype::IdentifierRef<R>, archetype::Archetype<R>>, ks: Seq<archetype::IdentifierRef<R>>, n: int)
+    requires 0 <= n < ks.len(),
+    ensures vx_sum_keys(m, ks.take(n + 1)) == vx_sum_keys(m, ks.take(n)) + m[ks[n]].length as nat
+{
+    assert(ks.take(n + 1).drop_last() =~= ks.take(n));
+    assert(ks.take(n + 1).last() == ks[n]);
+}
 '''
 
 
